@@ -13,7 +13,7 @@ ASSUMPTIONS = [
 PAIRS_Q = [("rest", "class"), ("class", "function"), ("function", "argparse"), ("argparse", "google"), ("numpydoc", "method"),
            ("google", "class"), ("class", "argparse"), ("method", "rest"), ("argparse", "class"), ("function", "numpydoc"),
            ("class", "rest"), ("rest", "function")]
-SH_Q = ["p1_int_d", "p1_str_s", "p2_plain_then_d", "p2_d_then_optd", "p1_optbool_f"]
+SH_Q = ["p1_int_d", "p1_str_s", "p2_plain_then_d", "p2_d_then_optd", "p1_optbool_f", "p0_kwargs"]
 KINDS7 = ("rest", "numpydoc", "google", "class", "function", "method", "argparse")
 
 
